@@ -78,6 +78,9 @@ func (x *Exec) runOnce(dec []Dec, concrete map[string]string) (out abortSig, pr 
 			pr.model = x.modelByTag()
 		}
 	}
+	if x.knownPath {
+		return abortSig{"KNOWN", "violations inside listed known-finding regions only"}, pr
+	}
 	return abortSig{"OK", ""}, pr
 }
 
@@ -200,13 +203,11 @@ func (x *Exec) doAssert(c *Term, label string) {
 					x.knownHit[r.key] = label + " " + w
 				}
 			}
-			if c.IsConc() {
-				// concretely false and attributed: the rest of the path is meaningless
-				x.abort("KNOWN", label)
-			}
-			if !x.assume(c) {
-				x.abort("KNOWN", label)
-			}
+			// Every violation of this assertion lies inside listed regions: it is reported as KNOWN-FINDING. The path
+			// goes on with its condition unchanged (an assertion does not alter the program), so that LATER assertions
+			// are still evaluated for the very inputs of the known region — a change that swaps one symptom for
+			// another inside that region is then not masked by the listed one.
+			x.knownPath = true
 			return
 		}
 		if !viol.IsConc() {
